@@ -1311,6 +1311,15 @@ theorem gjKernel_witness (C : Nat → Nat → Rat) (N c : Nat) (w : List Rat)
       ∀ k, k < N → sumTo N (fun l => C k l * w.getD l 0) = 0 :=
   gjKernel_spec C N c w h
 
+/-- **the failing column is the first dependent one**: the columns before `c` are linearly
+independent — a kernel vector of `C` that vanishes from column `c` on is zero.  With
+`gjKernel_witness` (`w_c = -1`, `w_l = 0` beyond `c`): `c` is the least column that is a
+combination of its predecessors, which the harness recomputes with an independent rank routine -/
+theorem gjKernel_first_dependent (C : Nat → Nat → Rat) (N c : Nat) (w : List Rat)
+    (h : gjKernel C N = some (c, w)) (v : Nat → Rat) (hsup : ∀ l, c ≤ l → v l = 0)
+    (hk : ∀ k, k < N → sumTo N (fun l => C k l * v l) = 0) : ∀ l, v l = 0 :=
+  gjKernel_first C N c w h v hsup hk
+
 /-- exactly one of the two happens: a kernel vector or an inverse -/
 theorem gjKernel_dichotomy (C : Nat → Nat → Rat) (N : Nat) :
     gjKernel C N = none ↔ (gjInverse C N).isSome :=
